@@ -293,11 +293,13 @@ def _cls(cfg, wt):
 SUBS = {'hist': sub_hist}
 
 EV_FULL = [['new_key'], ['new_key_change'], ['get_key'], ['get_key_change'], ['get_keys2'], ['new_keys3'],
-           ['path_gap', 0, 7], ['path_gap', 1, 2], ['new_account'], ['new_key_acc1'], ['new_key_otherwt'],
+           ['path_gap', 0, 7], ['path_gap', 0, 3], ['path_gap', 1, 2], ['new_account'], ['new_key_acc1'], ['new_key_otherwt'],
            ['mark_used'], ['reopen']]
-EV_SMALL = [['new_key'], ['new_key_change'], ['get_key'], ['get_keys2'], ['path_gap', 0, 5], ['mark_used'],
+EV_SMALL = [['new_key'], ['new_key_change'], ['get_key'], ['get_keys2'], ['path_gap', 0, 5], ['path_gap', 0, 2],
+            ['mark_used'],
             ['new_account'], ['reopen']]
 EV_WATCH = [['new_key'], ['new_key_change'], ['get_key'], ['get_keys2'], ['new_keys3'], ['path_gap', 0, 7],
+            ['path_gap', 0, 4],
             ['mark_used'], ['reopen']]
 EV_MS = [['new_key'], ['new_key_change'], ['get_key'], ['get_keys2'], ['mark_used'], ['reopen']]
 
